@@ -180,8 +180,10 @@ def c05():
     gh = build_harness()
     known = _known_ids("C05")
     cfgs = ["MCExprFlat2.cfg", "MCExprFlat3.cfg" if tier == "quick" else "MCExprFlat3Full.cfg", "MCExprLit.cfg", "MCExprTreeQuick.cfg" if tier == "quick" else "MCExprTree.cfg"]
+    builtins = ["MCBuiltins_%s.cfg" % g for g in ("str2", "str1", "replace", "in", "num", "order")]
     with cf.ThreadPoolExecutor(max_workers=4) as ex:
         futs = [ex.submit(export_cases, i, "MCExpr.tla", c, "CASE ", 4) for i, c in enumerate(cfgs)]
+        futs += [ex.submit(export_cases, 20 + i, "GrlBuiltins.tla", c, "CASE ", 2) for i, c in enumerate(builtins)]
         exports = [f.result() for f in futs]
     log("C05: cases exported by TLC: %s" % {e["what"].split("/ ")[1]: e["n"] for e in exports})
 
@@ -225,13 +227,16 @@ def c05():
     n = sum(e["n"] for e in exports)
     cov = {"states": sum(e["distinct"] for e in exports), "transitions": sum(e["generated"] for e in exports),
            "traces_validated_against_impl": n, "evaluations": total_stats.get("evaluations", 0), "distinct_nontrivial": n,
-           "model": "GrlExpr.tla via MCExpr.tla: %s; invariant AmpOnly (the two groupings differ only around &)" % ", ".join(cfgs),
+           "model": "GrlExpr.tla via MCExpr.tla: %s; invariant AmpOnly (the two groupings differ only around &); GrlBuiltins.tla: %s"
+                    % (", ".join(cfgs), ", ".join(builtins)),
            "rule": "case = well-typed member of a bounded family: flat operator sequences of 2 and 3 operators over all 15 operators (grouping left to the "
                    "parser, and fully parenthesised), depth-2 trees with negation, parenthesised sub-expressions, strings and failing operands (short "
-                   "circuit), number literals in every documented notation; each printed with varying spacing, comments and keyword case; the value "
+                   "circuit), number literals in every documented notation; calls of the string built-ins over all strings up to length 3 of a 4-letter alphabet "
+                   "(receiver as constant and through a map entry of a fact), variadic In / Max / Min, Abs / Floor / Ceil / Round, and fact methods whose result "
+                   "depends on argument order (fixed, variadic, mixed kinds); each printed with varying spacing, comments and keyword case; the value "
                    "is captured by a typed sink method so the kind is checked too. Every exported case is a distinct TLC state.",
            "exhaustive": True, "samples": samples, "disagreements": len(all_mms), "known_finding_cases": known_hits,
-           "not_modelled": ["regular expressions (MatchString)", "string/array/map built-in functions and variadic fact methods (argument order): planned"]}
+           "not_modelled": ["regular expressions (MatchString)", "transcendental math built-ins, time built-ins, Now()", "array Append / Clear"]}
     write_evidence("C05", tier, seed, "model_checking", cov, ["TLC and the Json module", "the harness's printers (flat / full / literal text) and typed sink",
                    "values are dyadic rationals so that float64 arithmetic is exact; division by zero, overflow and NaN are outside the family"],
                    violations, time.time() - t0)
